@@ -327,25 +327,48 @@ def h08_returns_model(S):
     from repid.converter import BasicConverter, DefaultConverter, PydanticConverter
     from harness.common import World
 
+    import decimal
+    import enum
+    import uuid
+
+    class Colour(enum.Enum):
+        RED = "red"
+
     class Report(pydantic.BaseModel):
         done: bool
         retry_after: typing.Optional[int] = 30
         note: typing.Optional[str] = None
 
+    class Rich(pydantic.BaseModel):
+        uid: uuid.UUID
+        amount: decimal.Decimal
+        colour: Colour
+        members: typing.Set[int]
+
     cname, conv = [("basic", BasicConverter), ("pydantic", PydanticConverter), ("default", DefaultConverter)][S.pick("converter", 3)]
     as_dict = S.flag("actor_returns_a_dict")
     retry_after = [None, 5][S.pick("retry_after", 2)]
+    rich = S.flag("model_with_uuid_decimal_enum_set_fields")
+    annotated = S.flag("return_annotation_present") if rich else True
     S.tag("converter", cname)
     out = {}
     value = Report(done=True, retry_after=retry_after)
+    if rich:
+        as_dict = False
+        Report = Rich
+        value = Rich(uid=uuid.UUID(int=7), amount=decimal.Decimal("1.50"), colour=Colour.RED, members={3})
 
     async def main(loop):
         w = World(results=True)
         await w.open(record=False)
         r = Router()
 
-        async def actor() -> Report:
-            return value.model_dump() if as_dict else value
+        if annotated:
+            async def actor() -> Report:
+                return value.model_dump() if as_dict else value
+        else:
+            async def actor():
+                return {"report": value}
 
         r.actor(name="actor", converter=conv)(actor)
         await Job("actor", id_="j1", result_id="r1", _connection=w.conn).enqueue()
@@ -357,6 +380,9 @@ def h08_returns_model(S):
     S.cover("model-returned")
     b = out["bucket"]
     S.check("result-stored", b is not None and b.success, info=repr(b))
+    if b is not None and b.success and not annotated:
+        S.check("encoded-return-value-is-the-models-json", json.loads(b.data) == {"report": json.loads(value.model_dump_json())}, info=f"{cname}: stored {b.data!r}")
+        return
     if b is not None and b.success:
         S.check("encoded-return-value-decodes-to-the-returned-value", Report.model_validate_json(b.data) == value,
                 info=f"{cname}: returned {value!r}, stored {b.data!r}")
